@@ -35,7 +35,7 @@ def dec : Val → Option Nat
 
 def enc (k : Nat) : Val := if k = 0 then .int 0 else if k = Wfs.END then .int 1 else .ptr (.obj k)
 
-theorem dec_enc (k : Nat) : dec (enc k) = some k := by
+@[simp] theorem dec_enc (k : Nat) : dec (enc k) = some k := by
   unfold enc; split
   · subst_vars; rfl
   · split
@@ -65,6 +65,22 @@ theorem dec_null {v : Val} {k : Nat} (h : dec v = some k) : v = .int 0 ↔ k = 0
   · intro e; subst e; exact dec_inj h (by decide)
 
 theorem dec_node {k : Nat} (h : Wfs.isNode k) : dec (.ptr (.obj k)) = some k := by simp [dec, h]
+
+@[simp] theorem enc_inj (a b : Nat) : enc a = enc b ↔ a = b := by
+  constructor
+  · intro h; have := congrArg dec h; simpa using this
+  · rintro rfl; rfl
+
+@[simp] theorem enc_eq_null (a : Nat) : enc a = .int 0 ↔ a = 0 := by
+  rw [show (Val.int 0) = enc 0 from rfl, enc_inj]
+
+@[simp] theorem enc_eq_end (a : Nat) : enc a = .int 1 ↔ a = Wfs.END := by
+  rw [show (Val.int 1) = enc Wfs.END from rfl, enc_inj]
+
+@[simp] theorem enc_ne_wouldblock (a : Nat) : enc a ≠ .int (-1) := by
+  intro h; have := congrArg dec h; rw [dec_enc] at this; simp [dec] at this
+
+theorem enc_node {k : Nat} (h : Wfs.isNode k) : enc k = .ptr (.obj k) := by simp [enc, h.1, h.2]
 
 /-- which API function is running -/
 inductive Op | push | pop | popAll | empty
@@ -112,10 +128,10 @@ def absEv (op : Op) (s : Nat) : Event → List LLabel
 def retV : Wfs.Ret → Val
   | .void => .int 0
   | .flag b => .int (if b then 1 else 0)
-  | .node n _ => .ptr (.obj n)
+  | .node n _ => enc n
   | .null => .int 0
   | .wouldblock => .int (-1)
-  | .head h => .ptr (.obj h)
+  | .head h => enc h
 
 /-- how a run of an API function ended, against the local L2 state reached: preempted (a proper prefix), out of
 loop budget (also a prefix), or returned – then L2's thread is back at `idle` and the C return value is L2's `ret` -/
@@ -142,6 +158,38 @@ theorem push_refines (fuel : Nat) (env : Env) (inp : List Val) (s n : Nat) (cfg 
     by_cases hc : cfg = 0 <;> by_cases hoe : o = Wfs.END <;>
       sexec [Gen.Src.«_cds_wfs_push», Gen.Src.«___cds_wfs_end»] <;>
       simp [absEv, lrun, lstep, Done, headLoc, dec_node hnode, ho, hnode, hpc, retV, hoe]
+
+-- ----------------------------------------------------------------------------------------------------------
+-- ___cds_wfs_pop_all, _cds_wfs_empty
+-- ----------------------------------------------------------------------------------------------------------
+theorem pop_all_refines (fuel : Nat) (env : Env) (inp : List Val) (s : Nat) (cfg : Int) (ls : LState)
+    (hs : env.vars "u_stack" = some (.ptr (.obj s)))
+    (hcfg : env.priv (.glob "CONFIG_RCU_EMIT_LEGACY_MB") = some (.int cfg))
+    (hpc : ls.pc = .idle) (hinp : ∀ v ∈ inp, (dec v).isSome) :
+    ∃ out, exec fuel Gen.Src.«___cds_wfs_pop_all» env inp = .ok out ∧
+      ∃ ls', lrun ls (out.events.flatMap (absEv .popAll s)) = some ls' ∧ Done out ls' := by
+  cases inp with
+  | nil => sexec [Gen.Src.«___cds_wfs_pop_all», Gen.Src.«___cds_wfs_end»]; simp [lrun, Done]
+  | cons v rest =>
+    obtain ⟨o, ho⟩ := Option.isSome_iff_exists.mp (hinp v (by simp))
+    have hv := enc_dec ho; subst hv
+    by_cases hc : cfg = 0 <;> by_cases hoe : o = Wfs.END <;>
+      sexec [Gen.Src.«___cds_wfs_pop_all», Gen.Src.«___cds_wfs_end»] <;>
+      simp [absEv, lrun, lstep, Done, headLoc, hpc, retV, hoe, show dec (.int 1) = some Wfs.END from rfl]
+
+theorem empty_refines (fuel : Nat) (env : Env) (inp : List Val) (s : Nat) (ls : LState)
+    (hs : env.vars "u_stack" = some (.ptr (.obj s)))
+    (hpc : ls.pc = .idle) (hinp : ∀ v ∈ inp, (dec v).isSome) :
+    ∃ out, exec fuel Gen.Src.«_cds_wfs_empty» env inp = .ok out ∧
+      ∃ ls', lrun ls (out.events.flatMap (absEv .empty s)) = some ls' ∧ Done out ls' := by
+  cases inp with
+  | nil => sexec [Gen.Src.«_cds_wfs_empty», Gen.Src.«___cds_wfs_end»]; simp [lrun, Done]
+  | cons v rest =>
+    obtain ⟨o, ho⟩ := Option.isSome_iff_exists.mp (hinp v (by simp))
+    have hv := enc_dec ho; subst hv
+    by_cases hoe : o = Wfs.END <;>
+      sexec [Gen.Src.«_cds_wfs_empty», Gen.Src.«___cds_wfs_end»] <;>
+      simp [absEv, lrun, lstep, Done, hpc, retV, hoe]
 
 end WfsR
 -- ==========================================================================================================
@@ -224,9 +272,9 @@ theorem lr_append (op s ls a b) : lr op s ls (a ++ b) = (lr op s ls a).bind (fun
 def retV : Lfs.Ret → Val
   | .void => .int 0
   | .flag b => .int (if b then 1 else 0)
-  | .node n => .ptr (.obj n)
+  | .node n => enc n
   | .null => .int 0
-  | .head h => .ptr (.obj h)
+  | .head h => enc h
 
 def Done (out : Out) (ls' : LState) : Prop :=
   out.ctl = .blocked ∨ out.ctl = .fuel ∨ (out.ctl = .ret (some (retV ls'.ret)) ∧ ls'.pc = .idle)
@@ -279,10 +327,115 @@ theorem push_refines (fuel : Nat) (env : Env) (inp : List Val) (s n : Nat) (cfg 
     · sexec [PushI]; exact ⟨hinp, rfl⟩
   simp only [List.nil_append] at hev
   rcases hfin with hf | ⟨c, -, hR | ⟨rfl, h, hh, rfl, hp⟩, hc⟩
-  · sexec; simp [hev, hl, Done]
-  · subst hR; simp only [Ctl.afterLoop] at hc; sexec; simp [hev, hl, Done]
+  · sexec; simp [Done]
+  · subst hR; simp only [Ctl.afterLoop] at hc; sexec; simp [Done]
   · simp only [Ctl.afterLoop] at hc
-    by_cases h0 : h = 0 <;> sexec <;> simp [hev, hl, Done, retV, h0, hp]
+    by_cases h0 : h = 0 <;> sexec <;> simp [Done, retV, h0]
+
+-- ----------------------------------------------------------------------------------------------------------
+-- ___cds_lfs_pop_all, _cds_lfs_empty
+-- ----------------------------------------------------------------------------------------------------------
+theorem pop_all_refines (fuel : Nat) (env : Env) (inp : List Val) (s : Nat) (cfg : Int) (ls : LState)
+    (hs : env.vars "u_s" = some (.ptr (.obj s)))
+    (hcfg : env.priv (.glob "CONFIG_RCU_EMIT_LEGACY_MB") = some (.int cfg))
+    (hpc : ls.pc = .idle) (hinp : ∀ v ∈ inp, (dec v).isSome) :
+    ∃ out, exec fuel Gen.Src.«___cds_lfs_pop_all» env inp = .ok out ∧
+      ∃ ls', lr .popAll s ls out.events = some ls' ∧ Done out ls' := by
+  cases inp with
+  | nil => sexec [Gen.Src.«___cds_lfs_pop_all»]; simp [lr, lrun, Done]
+  | cons v rest =>
+    obtain ⟨o, ho⟩ := Option.isSome_iff_exists.mp (hinp v (by simp))
+    have hv := enc_dec ho; subst hv
+    by_cases hc : cfg = 0 <;> by_cases hoe : o = 0 <;>
+      sexec [Gen.Src.«___cds_lfs_pop_all»] <;>
+      simp [lr, absEv, lrun, lstep, Done, headLoc, hpc, retV, hoe]
+
+theorem empty_refines (fuel : Nat) (env : Env) (inp : List Val) (s : Nat) (ls : LState)
+    (hs : env.vars "s" = some (.ptr (.obj s)))
+    (hpc : ls.pc = .idle) (hinp : ∀ v ∈ inp, (dec v).isSome) :
+    ∃ out, exec fuel Gen.Src.«_cds_lfs_empty» env inp = .ok out ∧
+      ∃ ls', lr .empty s ls out.events = some ls' ∧ Done out ls' := by
+  cases inp with
+  | nil => sexec [Gen.Src.«_cds_lfs_empty», Gen.Src.«___cds_lfs_empty_head»]; simp [lr, lrun, Done]
+  | cons v rest =>
+    obtain ⟨o, ho⟩ := Option.isSome_iff_exists.mp (hinp v (by simp))
+    have hv := enc_dec ho; subst hv
+    by_cases hoe : o = 0 <;>
+      sexec [Gen.Src.«_cds_lfs_empty», Gen.Src.«___cds_lfs_empty_head»] <;>
+      simp [lr, absEv, lrun, lstep, Done, hpc, retV, hoe]
+
+-- ----------------------------------------------------------------------------------------------------------
+-- ___cds_lfs_pop
+-- ----------------------------------------------------------------------------------------------------------
+def PopI (s : Nat) (cfg : Int) (e : Env) (i : List Val) (l : LState) : Prop :=
+  e.vars "s" = some (.ptr (.obj s)) ∧ e.priv (.glob "CONFIG_RCU_EMIT_LEGACY_MB") = some (.int cfg) ∧
+  (∀ v ∈ i, (dec v).isSome) ∧ l.pc = .popLd
+
+def PopR (c : Ctl) (_ : Env) (_ : List Val) (l : LState) : Prop :=
+  c = .blocked ∨ (c = .ret (some (retV l.ret)) ∧ l.pc = .idle)
+
+theorem pop_body (fuel : Nat) (s : Nat) (cfg : Int) (body : Stmt)
+    (hb : firstLoop Gen.Src.«___cds_lfs_pop» = some body)
+    (e : Env) (i : List Val) (l : LState) (hI : PopI s cfg e i l) :
+    ∃ o, exec fuel body e i = .ok o ∧ ∃ ls', lr .pop s l o.events = some ls' ∧
+      (if o.ctl.goesOn then PopI s cfg o.env o.inp ls' else PopR o.ctl o.env o.inp ls') := by
+  simp only [Gen.Src.«___cds_lfs_pop», block, firstLoop, Option.some.injEq] at hb
+  subst hb
+  obtain ⟨h1, h4, h5, h7⟩ := hI
+  cases i with
+  | nil => sexec; simp [lr, lrun, Ctl.goesOn, PopR]
+  | cons v rest =>
+    obtain ⟨k, hk⟩ := Option.isSome_iff_exists.mp (h5 v (by simp))
+    have hv := enc_dec hk; subst hv
+    by_cases hk0 : k = 0
+    · subst hk0
+      sexec [Gen.Src.«___cds_lfs_empty_head»]
+      simp [lr, lrun, lstep, absEv, Ctl.goesOn, PopR, h7, retV]
+    · have hek := enc_node hk0
+      cases rest with
+      | nil =>
+        sexec [Gen.Src.«___cds_lfs_empty_head»]
+        simp [lr, lrun, lstep, absEv, Ctl.goesOn, PopR, h7, hk0, ← hek]
+      | cons w rest =>
+        obtain ⟨nx, hnx⟩ := Option.isSome_iff_exists.mp (h5 w (by simp))
+        have hw := enc_dec hnx; subst hw
+        cases rest with
+        | nil =>
+          sexec [Gen.Src.«___cds_lfs_empty_head»]
+          simp [lr, lrun, lstep, absEv, Ctl.goesOn, PopR, h7, hk0, ← hek]
+        | cons x rest =>
+          obtain ⟨cur, hcur⟩ := Option.isSome_iff_exists.mp (h5 x (by simp))
+          have hx := enc_dec hcur; subst hx
+          have h5' : ∀ v ∈ rest, (dec v).isSome := fun v hv => h5 v (by simp [hv])
+          by_cases hch : cur = k
+          · subst hch
+            by_cases hc : cfg = 0 <;> sexec [Gen.Src.«___cds_lfs_empty_head»] <;>
+              simp [lr, lrun, lstep, absEv, headLoc, Ctl.goesOn, PopR, h7, hk0, ← hek, retV]
+          · have hch' : ¬ enc cur = .ptr (.obj k) := by rw [← hek]; simpa using hch
+            sexec [Gen.Src.«___cds_lfs_empty_head»]
+            simp [lr, lrun, lstep, absEv, headLoc, Ctl.goesOn, PopI, h7, hk0, ← hek, hch, h1, h4]
+            exact h5'
+
+theorem pop_refines (fuel : Nat) (env : Env) (inp : List Val) (s : Nat) (cfg : Int) (ls : LState)
+    (hs : env.vars "u_s" = some (.ptr (.obj s)))
+    (hcfg : env.priv (.glob "CONFIG_RCU_EMIT_LEGACY_MB") = some (.int cfg))
+    (hpc : ls.pc = .popLd) (hinp : ∀ v ∈ inp, (dec v).isSome) :
+    ∃ out, exec fuel Gen.Src.«___cds_lfs_pop» env inp = .ok out ∧
+      ∃ ls', lr .pop s ls out.events = some ls' ∧ Done out ls' := by
+  sexec [Gen.Src.«___cds_lfs_pop»]
+  generalize hE : iterate _ _ _ _ _ = r
+  obtain ⟨o, rfl, evs, ls', hev, hl, hfin⟩ : ∃ o, r = .ok o ∧ ∃ evs ls', o.events = [] ++ evs ∧
+      lr .pop s ls evs = some ls' ∧ (o.ctl = .fuel ∨ ∃ c, c.goesOn = false ∧
+        PopR c o.env o.inp ls' ∧ o.ctl = c.afterLoop) := by
+    rw [← hE]
+    refine iterate_inv (lr .pop s) (lr_nil _ _) (lr_append _ _) _ (PopI s cfg) PopR ?_ fuel _ _ ls [] ?_
+    · exact pop_body fuel s cfg _ (by simp [Gen.Src.«___cds_lfs_pop», block, firstLoop])
+    · sexec [PopI]; exact hinp
+  simp only [List.nil_append] at hev
+  rcases hfin with hf | ⟨c, -, rfl | ⟨rfl, hidle⟩, hc⟩
+  · sexec; simp [Done]
+  · simp only [Ctl.afterLoop] at hc; sexec; simp [Done]
+  · simp only [Ctl.afterLoop] at hc; sexec; simp [Done, hidle]
 
 end LfsR
 
